@@ -135,7 +135,17 @@ CHECKS["C19"] = (
     "locations under the default recursion head-room). Post-condition: a well-formed value, or an exception from the allowed set "
     "(BioCantorException subclasses, ValueError, TypeError, NotImplementedError); any other exception is a counterexample.",
     _NOTE, "DESIGN.md §3 C19")
-for _p in ["C10", "C11", "C17"]:
+CHECKS["C11"] = (
+    _CH + "; z3 queries over the live escape tables",
+    "EXPORT side only: rows of a collection (gene with coding + non-coding transcript, feature collection) with UNBOUNDED symbolic "
+    "coordinates are rendered through symbolic tokens and read back column by column: 9 columns, 1-based inclusive start<=end "
+    "equal to the source blocks, strand symbols, phase only on CDS rows and equal to the frame-derived phase, unique IDs, Parents "
+    "defined earlier, rows ordered by start, both coordinate modes (chunk at symbolic offset); escape tables over ALL code points "
+    "(z3) and every string of length <=3 (thorough 4) over a 16-character special alphabet through the real escape functions and "
+    "GFFAttributes (percent-decoding returns the original, comma = documented value separator, empty -> nan); reserved keys; writer "
+    "headers/ordering/FASTA section. F15 (shared-CDS isoforms duplicate CDS row IDs) recorded.",
+    _NOTE + " The re-parse legs (io.gff3.parser: gffutils/sqlite3) are outside the claim.", "DESIGN.md §3 C11")
+for _p in ["C10", "C17"]:
     NOT_APPLICABLE[_p] = "check not built yet (build in progress; see DESIGN.md §3 for the planned solver-based check)"
 NOT_APPLICABLE["C12"] = ("GenBank writer cannot emit a feature on the installed Biopython (SeqFeature(strand=) TypeError), the "
                          "parser needs the absent PyVCF module, and the oracle is third-party text parsing (Bio.SeqIO): nothing "
